@@ -36,7 +36,7 @@ func init() {
 	}
 	harness.Specs["C17"] = &harness.PropSpec{
 		ID: "C17", Test: "TestC17", Kind: "queue", Level: "exploration",
-		Quick: 12000, Thorough: 600000,
+		Quick: 8000, Thorough: 300000,
 		Rule: "generated queue programs as for C05 with counter probes at generated points (also inside reader sections and right after queue/file reopen): " +
 			"ground truth D = number of events a second, fresh queue object can actually drain; Pending == Active == D, D within [explicitly flushed - ACKed, " +
 			"completed - ACKed], Flushed callback total == ACKed + D, ACKed callback total == ACKed, Reader.Available == ACKed + D - consumed (probed when not " +
